@@ -35,7 +35,7 @@ import zoo
 import zoo_c16 as z
 
 PROPERTY = "C16"
-LEAN_MODULE = "PyOak.Props.C16"
+LEAN_MODULE = "PyOak.Props.C16All"
 THEOREMS = ["PyOak.C16." + t for t in [
     "reset_after", "reset_after_raise", "call_unparsable", "seq_independent", "seq_final_default",
     "call_depends_on_own_args", "sorted_all", "untagged_all", "tagged_all", "default_tagged_all",
@@ -43,6 +43,15 @@ THEOREMS = ["PyOak.C16." + t for t in [
     "nested_same_options", "explorer_lists_child_fields_nested", "deser_sees_call_state",
     "unpatched_children_unsorted_fails", "unpatched_test_source_tagged_fails",
     "unpatched_test_source_unsorted_fails"]]
+# additions (AUDIT C16 §4): tag FIRST + rest sorted in every nested mapping; the try/finally explicit
+# (Model/SerOptsF.lean: callF threads the globals through a body with arbitrary writing / raising hooks)
+THEOREMS += ["PyOak.C16." + t for t in [
+    "sortedMap_too_weak", "sorted_tagged_all", "sorted_tagged_plain", "sorted_tagged_top", "sorted_untagged_all",
+    "nested_tag_is_class", "nested_source_is_idx", "test_patches_noOrigin", "sorted_tagged_strict_fails",
+    "serObjM_noHook", "deserM_noDHook", "bodyM_noHook", "tryFin_reset", "tryFin_outcome", "reset_afterF",
+    "reset_after_raiseF", "callF_outcome", "callF_unparsable", "callF_eq_call", "runSeqF_eq_runSeq",
+    "reset_after_via_finally", "seqF_independent", "later_call_default", "callNoFinally_fails",
+    "callNoFinally_later_call_fails", "callNoResetDeser_fails", "reentrant_hook_breaks_options"]]
 RULE = ("histories of 2-6 calls over as_dict/to_json/to_msgpck/to_yaml/as_obj/from_json/from_msgpck/from_yaml, "
         "each with a random subset of {SKIP_CLASS, SORT_KEYS, SOURCE_OPTIMIZED (True or explicit False), "
         "AST_EXPLORER | AST_TEST, user mashumaro dialect}, on seeded zoo trees with every origin kind, "
